@@ -261,6 +261,9 @@ func init() {
 		parts = append(parts, part{"neofs-votes-n3-all-orders", func() Driver { return NewVoteDriver(3, false, true) }, 0, 5, 30, 150})
 		multiBfsCheck("C17", parts, nil)
 	}
+	gridCheck("C05", []func() GridDriver{
+		func() GridDriver { return NewFeeGrid(1) }, func() GridDriver { return NewFeeGrid(4) }, func() GridDriver { return NewFeeGrid(7) },
+	}, 25, 120, nil)
 	bfsCheckT("C08", "netmap-history", func(tier string) func() Driver {
 		if tier == "thorough" {
 			return func() Driver { return NewSnapDriver([]int{0, 1, 2, 3, 4, 5, 6, 7, 8, 9, 10, 11, 12}, 30, 2) }
